@@ -57,6 +57,20 @@ func witnesses() []*Case {
 	out = append(out, &Case{Kind: "det", Settings: def, Client: "retain", Ops: []Op{
 		{K: "append", R: &big}, {K: "append", R: r(2, t0, 50)}, {K: "append", R: r(3, t0+4999, 50)}, {K: "append", R: r(4, t0+5000, 50)},
 		{K: "config", C: &ConfSpec{MaxWait: ptr(10), ZipMin: ptr(0)}}, {K: "append", R: r(5, t0+6000, 0)}, {K: "append", R: r(6, t0+6010, 0)}}})
+	// a full queue refuses the newcomer and keeps what it accepted: capacity 1, 2, 5 and the
+	// default 1000, overrun by k > capacity records before the consumer takes anything
+	// (no Failed callback: that is how the sender builds its queue)
+	for _, capacity := range []int{1, 2, 5, 1000} {
+		c := &Case{Kind: "det", Settings: Settings{5000, int64(capacity), 65536, 100}, Client: "consume"}
+		for i := 1; i <= capacity+4; i++ {
+			c.Ops = append(c.Ops, Op{K: "add", R: r(i, t0+int64(i), i%7)})
+		}
+		for i := 0; i < capacity+1; i++ {
+			c.Ops = append(c.Ops, Op{K: "step"})
+		}
+		c.Ops = append(c.Ops, Op{K: "add", R: r(capacity+5, t0+int64(capacity)+5, 3)}, Op{K: "stop"})
+		out = append(out, c)
+	}
 	return out
 }
 
